@@ -121,6 +121,21 @@ CHECKS = {
         technique="Coq proof (list induction, NoDup preservation) + differential correspondence and "
                   "monitor evaluated by vm_compute",
         design_ref="DESIGN.md section 6/C15"),
+    'C03': dict(
+        text="Theorems (Props/C03.v) over all tables, instances and states: lookup precedence "
+             "(specific rule > any-state rule; None target/missing rule rejects), Goto bypasses table "
+             "and conditions, conditions consulted only for table events on an initialised FSM and all "
+             "must hold, a rejected event changes nothing but on_notrans/cond log entries, exact log "
+             "of an accepted unchained transition (exit action, on_exit, entry action, output, "
+             "on_enter), nothing but callbacks is visible inside a chain of transitions (for every "
+             "chain length), the chained event's data becomes the visible one, two chained requests "
+             "and an endless chain are errors. Tie: FSM classes are created dynamically from the same "
+             "tables; the complete ordered log of callbacks (with the tag seen through "
+             "fsm_event_data) and probe deliveries, return values, state, output and Circuit.error "
+             "are compared with the model event by event.",
+        technique="Coq proof (structural lemmas over the transition engine, induction on the chain "
+                  "fuel) + differential correspondence evaluated by vm_compute",
+        design_ref="DESIGN.md section 6/C03"),
 }
 
 NOT_YET = "check not built yet in this round (planned: Coq model + theorems + correspondence, see DESIGN.md section 6)"
